@@ -674,7 +674,7 @@ def judge_generated(ctx, tools, enums, runner, cases, asts, srcs):
         a = runner.ir_res[c["ir"]]
         b = runner.msl_res[c["msl"]]
         st["runs"] += 1
-        cls, detail = mslgen.classify(plan, c["set"], a, b, has_workgroup(plan))
+        cls, detail = mslgen.classify(plan, c["set"], a, b, has_workgroup(plan), not c["unparsed"])
         if cls == "undefined":
             st["inputs_undefined_in_reference"] += 1
             st["reference_fail_reasons"][detail[:60]] = st["reference_fail_reasons"].get(detail[:60], 0) + 1
